@@ -165,6 +165,59 @@ def _frames(ctx):
                                    "reference decoder does not accept the acknowledgement frame")
 
 
+def _wire(ctx):
+    """Every write the real transmitter makes - first transmissions and whatever it writes after an ACK wait
+    expired, after a wrong / late / duplicate ACK - must be exactly one well-formed frame."""
+    import vloop
+    import streams
+    r = ctx.rng
+    w = vloop.LinkWorld()
+    writes = []
+    try:
+        cur = 0
+        for k in range(ctx.scale(40, 600)):
+            cls = r.choice(gen.all_command_classes())
+            f = gen.gen_cmd(cls, r).to_frame() if r.random() < 0.7 else r.choice(
+                gen.big_request(r, r.randrange(300, 900)).to_frame().handle_tx_fragmentation())
+            m = w.mark()
+            w.start_send(k, f)
+            how = r.choice(["ack", "ack", "expire", "wrong-then-expire", "expire-late-ack", "dup-ack"])
+            if how == "ack":
+                w.rx(streams.ack(cur)); cur = cur % 3 + 1
+            elif how == "dup-ack":
+                w.rx(streams.ack(cur)); w.rx(streams.ack(cur)); cur = cur % 3 + 1
+            elif how == "expire":
+                while w.tasks[k] is not None and not w.tasks[k].done() and w.tick():
+                    pass
+            elif how == "wrong-then-expire":
+                w.rx(streams.ack((cur + 1) % 4))
+                while not w.tasks[k].done() and w.tick():
+                    pass
+            else:
+                while not w.tasks[k].done() and w.tick():
+                    pass
+                w.rx(streams.ack(cur)); cur = cur % 3 + 1
+            for e in w.since(m):
+                if e.startswith("W"):
+                    writes.append((how, e[1:]))
+            ctx.count("wire:" + how)
+    finally:
+        w.shutdown()
+    lines = ["refdecode %s" % x for _, x in writes]
+    ans = ctx.driver.ask(lines) if ctx.driver else [None] * len(lines)
+    for (how, x), a in zip(writes, ans):
+        raw = bytes.fromhex(x)
+        ctx.case(("wire", x), sample=dict(ncp=how, wire=x[:24] + ".."))
+        ok = (len(raw) >= 7 and raw[:2] == b"\xde\xad" and int.from_bytes(raw[2:4], "little") == len(raw) - 2
+              and raw[4] == 6 and streams.crc8(raw[2:6]) == raw[6]
+              and (len(raw) == 7 or (len(raw) >= 9 and streams.crc16(raw[9:]) == int.from_bytes(raw[7:9], "little"))))
+        if a is not None:
+            ok = ok and a.startswith("ok ") and a.endswith("rest=-")
+        if not ok:
+            ctx.counterexample("written-frame-not-wellformed", dict(ncp=how, wire=x), "one well-formed frame", a or "python reference check failed",
+                               "bytes written to the transport are not a well-formed frame (marker, length, type, CRC8, CRC16)")
+
+
 def run(ctx):
     ctx.rule = ("(a) random 56/32-bit header values x setter x argument (incl. arguments wider than the field); "
                 "(b) to_frame() of generated commands of all 145 classes, large requests and all their fragments, "
@@ -172,6 +225,7 @@ def run(ctx):
                 "(c) all 8 acknowledgements; distinct by full input, all non-trivial")
     _bitfields(ctx)
     _frames(ctx)
+    _wire(ctx)
 
 
 def search(ctx):
